@@ -82,7 +82,7 @@ var properties = map[string]Property{
 	},
 	"C08": {
 		Level:       "other",
-		Rules:       []string{"N-FORWARD", "N-DEEPEST", "O-SEQ", "B-CHAIN", "N-PRESENCE", "N-WALK", "R-ITER-STABLE", "N-GETSET", "G-IMPORTS"},
+		Rules:       []string{"N-FORWARD", "N-DEEPEST", "O-SEQ", "O-LIFO", "B-CHAIN", "N-PRESENCE", "N-WALK", "R-ITER-STABLE", "N-GETSET", "G-IMPORTS"},
 		Explanation: "Decided (structural part): every call of a step (retrieve on the next node, or one of the retrieve-family helpers) passes the caller's own root and the caller's own sink (or a private pooled sink), the emitters hand the next step exactly the value they would emit themselves (container[key] of their parameters); fan-out loops are complete and leave only through their loop condition, branch errors are only accumulated through the deepest-error helper; the chain builder re-assigns its link target from the current step on every iteration. Also decided: every per-node setting the parser applies to a node that may be a multi-name selector — next link, texts, accessor flag — also reaches the member nodes the selector evaluates into the same result list, with the same value and under no flag evaluation does not use for that edge (N-WALK; this is where the `$..['a','b'].c` defect was found, now fixed); presence of a member is decided by comma-ok lookups, so a null member is a member (N-PRESENCE); no step walks a list that the following steps can overwrite (R-ITER-STABLE). Not decided: the relational equality of the three retrievals as such.",
 	},
 	"C09": {
@@ -98,7 +98,7 @@ var properties = map[string]Property{
 	"C11": {
 		Level:       "other",
 		Rules:       []string{"I-OVERFLOW", "I-RANGE", "I-BUF", "I-PROGRESS", "I-EXACT", "O-SEQ", "R-ITER-STABLE", "G-IMPORTS"},
-		Explanation: "Decided (totality half, for every start/end/step/length): zone (difference-bound matrix) abstract interpretation with trace partitioning of every subscript implementation, helpers inlined, with subscript numbers ranging over the whole machine integer range and 0 <= length <= maxInt/16: no addition, subtraction, negation or multiplication on subscript values can leave the machine integer range (exact big-integer interval per operation); every integer stored into a produced index list lies in [0, length-1]; every write into and reslice of the pre-sized buffer is in range (for both loops, using the iteration-count lemma: a counter incremented once per iteration of a loop whose variable moves by at least one towards a fixed bound is bounded by the distance between start and bound); make() lengths are non-negative; every loop variable moves towards its bound by a provably non-zero amount (termination). The consuming loops visit the produced indices completely and in order (O-SEQ). Not decided: exactness w.r.t. Python slicing (which elements are selected) — a numerical property.",
+		Explanation: "Decided (totality, for every start/end/step/length): zone (difference-bound matrix) abstract interpretation with trace partitioning of every subscript implementation, helpers inlined, with subscript numbers ranging over the whole machine integer range and 0 <= length <= maxInt/16: no addition, subtraction, negation or multiplication on subscript values can leave the machine integer range (exact big-integer interval per operation); every integer stored into a produced index list lies in [0, length-1]; every write into and reslice of the pre-sized buffer is in range (for both loops, using the iteration-count lemma: a counter incremented once per iteration of a loop whose variable moves by at least one towards a fixed bound is bounded by the distance between start and bound); make() lengths are non-negative; every loop variable moves towards its bound by a provably non-zero amount (termination). The consuming loops visit the produced indices completely and in order (O-SEQ). Also decided (exactness half, I-EXACT): at the entry of the enumeration loop, on every feasible zone partition, the first value, the bound and the step have exact linear forms over the operands and the length; each is one of the values Python's slice.indices can give (omitted: 0 / len for a positive step, len-1 / -1 for a negative one; written v: v, v+len, or the limit of [0,len] resp. [-1,len-1]) and the partition entails the side condition of that alternative; the loop stores its induction value at positions 0,1,2,…; a partition that does not enumerate knows the step has the wrong sign; the single index is v or v+len in range, else nothing; the subscript built from `start:end:step` does not depend on the operands' numbers beyond a sign test. Not decided: lengths above maxInt/16 (input model).",
 		Assumptions: []string{"a []interface{} cannot have more than maxInt/16 elements (element size 16 bytes)", "the iteration-count lemma (proved in DESIGN.md §3.G) is part of the trusted base"},
 	},
 	"C12": {
